@@ -178,9 +178,12 @@ class Recorder:
         self.evs.append(ev)
         return ev
 
-    def rec_setcfg(self, d, extra, src, prefill=False, form=None, file=None, mform=None):
+    def rec_setcfg(self, d, extra, src, prefill=False, form=None, file=None, mform=None, raw_map=None, raw_extra=None,
+                   poison_after=True):
         """extra: the caller's blocks (recorded as such); form: the kind of Iterable[bytes] they are handed over in;
-        file: an existing Bf3File to update (histories), else a fresh one."""
+        file: an existing Bf3File to update (histories), else a fresh one; raw_map / raw_extra: hand over exactly these
+        caller objects (equal to d / extra at the time of the call); poison_after: once the result is recorded, the
+        objects the call produced are edited in place (they are the caller's)."""
         tid = self._new(d, extra, src)
         f = file if file is not None else \
             self.Bf3File({"k": "v"}, [self.mk_comp({0xC3: b"\x02"}, b"fw")] if prefill else [])
@@ -190,22 +193,76 @@ class Recorder:
         if form == "keysview" and len(set(blocks)) != len(blocks):
             form = "generator"
         mform = mform or MFORMS[tid % len(MFORMS)]
-        m = as_mapping(d, mform)
+        if raw_map is not None:
+            m, mform = raw_map, "caller's dict object"
+        else:
+            m = as_mapping(d, mform)
+        if raw_extra is not None:
+            form = "caller's list object"
         ev = {"tid": tid, "op": "setcfg", "dict": enc_dict(m), "extra": [B(x) for x in blocks], "k": "ok", "cls": "",
               "desc": [], "blob": [], "alen": 0, "enc": 0, "form": form, "mform": mform}
         try:
-            if form == "omitted":
+            if raw_extra is not None:
+                f.set_config(m, raw_extra)
+            elif form == "omitted":
                 f.set_config(m)
             else:
                 f.set_config(m, as_iterable(blocks, form))
-            c = f.components[-1]
-            ev.update(desc=[[int(t), B(v)] for t, v in c.description.items()], blob=B(c.blob), alen=int(c.actual_len),
-                      enc=1 if c.encrypt_by_session_key else 0)
+            self._project(f, ev)
         except Exception as e:                                    # noqa: BLE001
             ev["k"], ev["cls"] = "raise", type(e).__name__
         ev["_cost"] = 1 + sum(len(c or b"") for c in d.values()) // 64
         self.evs.append(ev)
+        if poison_after and ev["k"] == "ok":
+            poison(f, tid)
         return ev
+
+    @staticmethod
+    def _project(f, ev):
+        c = f.components[-1]
+        ev.update(desc=[[int(t), B(v)] for t, v in c.description.items()], blob=B(c.blob), alen=int(c.actual_len),
+                  enc=1 if c.encrypt_by_session_key else 0)
+
+    def rec_reproject(self, f, d, extra, src):
+        """no call: the component an EARLIER set_config(d, extra) appended to f, looked at again now (after the caller
+        went on using the objects it had handed over) - judged as the result of that call"""
+        tid = self._new(d, extra, src)
+        ev = {"tid": tid, "op": "setcfg", "dict": enc_dict(d), "extra": [B(bytes(x)) for x in (extra or [])], "k": "ok", "cls": "",
+              "desc": [], "blob": [], "alen": 0, "enc": 0, "form": "looked at again later", "mform": "dict"}
+        try:
+            self._project(f, ev)
+        except Exception as e:                                    # noqa: BLE001
+            ev["k"], ev["cls"] = "raise", type(e).__name__
+        ev["_cost"] = 1
+        self.evs.append(ev)
+        return ev
+
+
+def poison(f, k):
+    """The caller owns what set_config produced.  After the event has been recorded the new component is edited IN PLACE
+    (description: every value changed and tags added / REBOOT 00, ENC 00 and a HWCID tag / cleared; blob; encrypted flag)
+    and so are the file's comments.  Nothing a later call produces - on this or any other file - may show these edits."""
+    try:
+        c = f.components[-1]
+        desc = c.description
+        if k % 3 == 0:
+            for t in list(desc):
+                desc[t] = b"\xEE" + bytes(desc[t])
+            desc[0xEE] = b"poisoned"
+            desc[0xC5] = b"\x00"
+            desc[0xC2] = b"\x00"
+        elif k % 3 == 1:
+            desc[0xC5] = b"\x00"
+            desc[0xC4] = b"\x00\x12"
+            desc[0xC2] = b"\x00"
+        else:
+            desc.clear()
+        c.blob = b"\xEE" * (len(c.blob) or 1)
+        c.actual_len = 1
+        c.encrypt_by_session_key = False
+        f.comments["Poisoned"] = "yes"
+    except Exception:                                             # noqa: BLE001 -- immutable containers: nothing to edit
+        pass
 
 
 # every way of handing over Iterable[bytes] (the signature of set_config), re-iterable and one-shot
@@ -283,6 +340,52 @@ def histories(rec, r, n):
         for mform in MFORMS:                                      # the equal mapping in every representation
             rec.rec_tlv(d, src, mform=mform)
             rec.rec_setcfg(d, x2 if j % 2 else [], src, file=f if j % 3 == 0 else None, mform=mform)
+        # the SAME dictionary and list objects handed to two calls, edited by the caller in between
+        m, x = dict(d), [bytes(b) for b in x1]
+        d0, x0 = dict(m), list(x)
+        fa, fb = rec.Bf3File({}, []), rec.Bf3File({}, [])
+        first = rec.rec_setcfg(d0, x0, src, file=fa, raw_map=m, raw_extra=x, poison_after=False)
+        newkey = next(k for k in range(0x7001, 0x7100) if all(kk != k for (kk, _v) in m))
+        m[(newkey, 1)] = b"added later"
+        if len(m) > 1:
+            del m[next(iter(m))]
+        x.append(b"\x02\x70\x01")
+        x[0] = b"\x99" + x[0][:50]
+        if first["k"] == "ok":
+            rec.rec_reproject(fa, d0, x0, src)                    # what the first call produced is not affected
+        rec.rec_setcfg(dict(m), list(x), src, file=fb, raw_map=m, raw_extra=x)
+        rec.rec_setcfg(dict(m), list(x), src, file=fa, raw_map=m, raw_extra=x)
+    return len(rec.evs) - n0
+
+
+def collision_histories(rec, r, n):
+    """Caller-supplied extra blocks that COLLIDE with the encoder's own output: one of the dictionary's own generated
+    blocks, all of them, a generated block of another dictionary of the run, the same extra twice, an extra equal to an
+    earlier extra.  They follow unchanged, in order, with multiplicity (TLC judges as for any setcfg event)."""
+    n0 = len(rec.evs)
+    dicts = [{(0x0101, 1): b"abc"}, {(0x0101, 1): b"abc", (0x0102, None): None}, {(0x0300, None): None},
+             {(0x0620, 1): b"\x00\x01", (0x0620, 6): b"Name", (0x0620, 7): b"\x01"}, {(1, 1): bytes(100), (1, 2): bytes(100), (2, 1): bytes(60)}]
+    while len(dicts) < n:
+        d = random_dict(r)
+        if d:
+            dicts.append(d)
+    outs = []
+    for d in dicts:
+        try:
+            outs.append([bytes(b) for b in rec.tlv(dict(d)) if 0 < len(b) <= 255])
+        except Exception:                                         # noqa: BLE001 -- recorded elsewhere
+            outs.append([])
+    for j, d in enumerate(dicts):
+        own, other = outs[j], outs[(j + 1) % len(dicts)]
+        x = bytes(r.randrange(256) for _ in range(r.choice([1, 3, 9])))
+        variants = [[x, x], [x, b"\x02\x00\x01", x], [x] + other[:1] + [x]]
+        if own:
+            variants += [[own[0]], list(own), [own[-1], own[-1]], [x, own[0], x], list(own) + list(own), [own[0]] + _extra(r),
+                         list(reversed(own))]
+        if other:
+            variants += [[other[0]], list(other) + own[:1]]
+        for k, v in enumerate(variants):
+            rec.rec_setcfg(d, v, ("collision", j), form=FORMS[(j + k) % len(FORMS)])
     return len(rec.evs) - n0
 
 
@@ -426,6 +529,7 @@ def run(tier):
             rec.rec_setcfg({(0x0101, 1): b"abc", (0x0102, None): None}, [b"\x02\xAA\xBB", b"\x01\xCC\xDD\x07\x01\x99"],
                            ("forms", form), form=form)
         n_prior = prior_config_histories(rec, r, thorough)
+        n_prior += collision_histories(rec, r, 120 if thorough else 24)
         unsorted = {(0x0300, 2): b"late", (0x0300, 1): b"early", (0x0101, 7): b"\x01\x02", (0x0200, 9): None, (0x0100, None): None}
         for mform in MFORMS:                                         # assignments first, keys descending, deletions last
             rec.rec_tlv(unsorted, ("mapping-forms", mform), mform=mform)
@@ -478,7 +582,7 @@ def run(tier):
                 "conf_dict_to_tlv" if ev["op"] == "tlv" else "Bf3File.set_config",
                 _show(d) + (" handed over as %s" % ev["mform"] if ev.get("mform") not in (None, "dict") else "")
                 + ((", extra blocks as %s" % ev["form"]) if ev.get("form") not in (None, "omitted") else ""), clause,
-                (" (raised %s)" % ev["cls"]) if ev["k"] == "raise" else "") + (" [%s %s]" % (src[0], src[1]) if src[0] in ("history", "prior-config") else ""),
+                (" (raised %s)" % ev["cls"]) if ev["k"] == "raise" else "") + (" [%s %s]" % (src[0], src[1]) if src[0] in ("history", "prior-config", "collision") else ""),
                 {"event": small, "source": src[0], "tlc_case": src[1]})
         if not any(t in rejd for t in cex_tids):
             rep.cov["parts"]["selftest-model"]["counterexample on the real code"] = "accepted (defect not present in the code)"
